@@ -153,6 +153,57 @@ def h_history(ctx, plan, pool, table_cap=None):
   ctx.witness('done')
 
 
+def h_two_switches(ctx, pool2):
+  """buffer pools are per switch: two switch objects in one process - an id handed out by one is unknown to the other, and the packets one
+  holds do not count against the other's pool"""
+  env.get_core()
+  of = ctx.pox('pox.openflow.libopenflow_01'); swm = ctx.pox('pox.datapaths.switch'); pkt = ctx.pox('pox.lib.packet')
+  sws = []; sent = {}; outs = {}
+  for i, pool in enumerate((3, pool2)):
+    sw = swm.SoftwareSwitch(dpid=1 + i, ports=4, miss_send_len=128, max_buffers=pool)
+    sent[i] = []; outs[i] = []
+    class Conn:
+      def __init__(c, i): c.i = i
+      def send(c, msg): sent[c.i].append(msg)
+      def set_message_handler(c, h): pass
+    sw.set_connection(Conn(i))
+    sw.addListenerByName('DpPacketOut', lambda e, i=i: outs[i].append((e.port.port_no, e.packet.pack())))
+    sws.append(sw)
+  def frame(tag): return env.tobytes(ctx, [2, 0, 0, 0, 0, 9] + [2, 0, 0, 0, 0, tag] + [0x08, 0x01] + list(ctx.bytes('pay%d' % tag, 6)))
+  def rx(i, msg): sws[i].rx_message(sws[i]._connection, type(msg).unpack_new(msg.pack())[1])
+  # switch 0 buffers two frames
+  raws = [frame(1), frame(2)]
+  for r in raws: sws[0].rx_packet(pkt.ethernet(r), 1)
+  pis = [m for m in sent[0] if isinstance(m, of.ofp_packet_in)]
+  ctx.check('switch 0: two packet-ins with distinct buffer ids', len(pis) == 2 and pis[0].buffer_id is not None and pis[1].buffer_id is not None and pis[0].buffer_id != pis[1].buffer_id)
+  if len(pis) != 2 or pis[0].buffer_id is None: return
+  # switch 1 holds nothing: its first miss gets a buffer (if it has any) - the other switch's packets do not fill its pool
+  r3 = frame(3)
+  sws[1].rx_packet(pkt.ethernet(r3), 2)
+  p1 = [m for m in sent[1] if isinstance(m, of.ofp_packet_in)]
+  ctx.check('switch 1: one packet-in', len(p1) == 1)
+  if len(p1) == 1:
+    if pool2 > 0: ctx.check('switch 1: its own pool is free, so the packet is buffered', p1[0].buffer_id is not None)
+    else: ctx.check('switch 1 advertises no buffers: whole frame, no id', p1[0].buffer_id is None)
+  ctx.check('occupancy: each switch holds only its own packets', sum(1 for x in sws[0]._packet_buffer if x is not None) == 2 and
+            sum(1 for x in sws[1]._packet_buffer if x is not None) == (1 if pool2 > 0 else 0))
+  # an id of switch 0 used on switch 1 (solver-chosen which): unknown there unless switch 1 happens to have handed out the same number itself
+  k = int(ctx.int('which', 0, 1)); bid = pis[k].buffer_id
+  own = [m.buffer_id for m in p1 if m.buffer_id is not None]
+  del sent[1][:]
+  rx(1, of.ofp_packet_out(buffer_id=bid, in_port=0xffff, actions=[of.ofp_action_output(port=3)]))
+  if bid in own:
+    ctx.witness('same-number'); ctx.check('switch 1 emits its own packet for its own id', len(outs[1]) == 1 and ctx.Eq(outs[1][0][1], r3))
+  else:
+    ctx.witness('foreign-id')
+    ctx.check('an id of another switch emits nothing', outs[1] == [])
+    ctx.check('an id of another switch is rejected with BAD_REQUEST / BUFFER_UNKNOWN or BUFFER_EMPTY', any(isinstance(m, of.ofp_error) and m.type == 1 and m.code in (7, 8) for m in sent[1]))
+  # the id is still good on the switch that issued it
+  rx(0, of.ofp_packet_out(buffer_id=bid, in_port=0xffff, actions=[of.ofp_action_output(port=2)]))
+  ctx.check('the issuing switch emits the stored packet once', len(outs[0]) == 1 and outs[0][0][0] == 2 and ctx.Eq(outs[0][0][1], raws[k]))
+  ctx.witness('done')
+
+
 def obligations(tier):
   thorough = tier != 'quick'
   plans = PLANS_T + (['mmmPP', 'mcPmF', 'mPmPm', 'SmcPF', 'mmFPm', 'cmPPm'] if thorough else [])
@@ -163,5 +214,7 @@ def obligations(tier):
                       "P=packet_out(symbolic buffer id 0..5 or none+data; output or empty action list), F=flow_mod(symbolic buffer id or none; output or empty action list), S=set_config(symbolic miss_send_len)")
   return [Obligation('O1_history', h_history, cases, witnesses=('done', 'buffered', 'pool-full', 'released', 'stale', 'dropped'), max_decisions=20000,
                      desc='buffer pool vs reference over symbolic histories'),
+          Obligation('O3_two_switches', h_two_switches, [dict(pool2=k) for k in (0, 1, 2)], witnesses=('done', 'foreign-id', 'same-number'),
+                     desc='two switches in one process: buffer ids and pool bounds are per switch'),
           Obligation('O2_table_full', h_history, full, witnesses=('done', 'table-full', 'released'), max_decisions=20000,
                      desc='the same histories on a switch whose flow table is full: refused flow_mods still use the buffer they name')]
